@@ -142,6 +142,14 @@ class Ev(object):
         self._fid[r] = ("wrong_class", type(q2).__name__, None)
         self.detail[r] = "rebuilt object is %s" % type(q2).__name__
 
+  def hint(self, route):
+    """Options that the configuration dictionary does not carry."""
+    if self.cfg is None:
+      return []
+    return [k for k in sorted(self.kw)
+            if k not in self.cfg or
+            not _val_same(self.cfg[k], O.decode(self.kw[k]))]
+
   def obs(self):
     if self._obs is None:
       try:
@@ -183,9 +191,6 @@ def evaluate(cls, kw, call_first, probes, seed):
   return _eval_memo[key]
 
 
-_ctx_str = O.kwstr
-
-
 def _val_same(a, b):
   try:
     if isinstance(a, (list, tuple)) or isinstance(b, (list, tuple)):
@@ -198,136 +203,24 @@ def _val_same(a, b):
     return False
 
 
-def _hint(ev):
-  """Options that the configuration dictionary does not carry (search order
-  hint only - the verdict is always behavioural)."""
-  if ev.cfg is None:
-    return []
-  c = []
-  for k in sorted(ev.kw):
-    if k not in ev.cfg or not _val_same(ev.cfg[k], O.decode(ev.kw[k])):
-      c.append(k)
-  return c
-
-
-def _find_lost(cls, kw, obs_rebuilt, probes, seed, hint, max_tries=30):
-  """Smallest set L of options such that a quantizer built directly without
-  L behaves like the rebuilt one on every probe (None: nothing found)."""
-  import itertools  # pylint: disable=g-import-not-at-top
-
-  def explains(sub):
-    cand = {a: b for a, b in kw.items() if a not in sub}
-    try:
-      o = _observe_direct(cls, cand, probes, seed)
-    except Exception:  # pylint: disable=broad-except
-      return False
-    return O.obs_diff(o, obs_rebuilt) is None
-
-  if hint and explains(hint):
-    lost = list(hint)
-    for o in list(lost):
-      t = [x for x in lost if x != o]
-      if t and explains(t):
-        lost = t
-    return sorted(lost)
-  tries = 0
-  for size in (1, 2):
-    for sub in itertools.combinations(sorted(kw), size):
-      tries += 1
-      if tries > max_tries:
-        return None
-      if explains(sub):
-        return sorted(sub)
-  return None
-
-
-def _analyse(ctx, cls, kw, call_first, probes, seed, route, depth=0):
-  """Failures of one route on one config, each reduced to its root cause.
-  -> list of (sub_check, signature, detail, minimal_case)."""
-  kw = O.nondefault(cls, kw)
-  ev = evaluate(cls, kw, call_first, probes, seed)
-  if not ev.ctor:
-    return []
-  fid = ev.fid(route)
-  if fid is None:
-    return []
-
-  def mk(m, sig, detail):
-    return (route, sig, "%s(%s): %s" % (cls, _ctx_str(m), detail),
-            {"cls": cls, "kw": m, "call_first": call_first, "probes": probes,
-             "seed": seed})
-
-  base = {"cls": cls, "route": route, "kind": fid[0]}
-  if fid[0] != "mismatch":
-    # raising routes: reduction needs no observation (cheap)
-    def still(k):
-      e = evaluate(cls, k, call_first, probes, seed)
-      return e.ctor and e.static_fid(route) == fid
-    m = O.ddmin(cls, kw, still)
-    evm = evaluate(cls, m, call_first, probes, seed)
-    sig = dict(base, exc=fid[1], frame=fid[2], options=_ctx_str(m))
-    out = [mk(m, sig, evm.detail[route])]
-    rest = {k: v for k, v in kw.items() if k not in m}
-    if m and depth < 4 and O.admissible(cls, rest):
-      out += _analyse(ctx, cls, rest, call_first, probes, seed, route,
-                      depth + 1)
-    return out
-
-  # mismatch: which options did the rebuilt quantizer lose?
-  lost = _find_lost(cls, kw, ev.robs(route), probes, seed, _hint(ev))
-  if lost is not None and len(lost) == 1:
-    sig = dict(base, lost_options=lost)
-    m = kw
-    if not ctx.is_known(route, sig):
-      def still1(k):
-        e = evaluate(cls, k, call_first, probes, seed)
-        return (e.ctor and lost[0] in k and e.fid(route) == fid)
-      m = O.ddmin(cls, kw, still1)
-    return [mk(m, sig, evaluate(cls, m, call_first, probes, seed).detail[route])]
-  if lost is not None:
-    # several options lost at once: attribute each one separately; an option
-    # that is only admissible together with another lost one (elements_per_
-    # scale needs scale_axis) is reported jointly with that companion
-    def without(drop):
-      return {a: b for a, b in kw.items() if a not in drop}
-    joint = mk(kw, dict(base, lost_options=lost), ev.detail[route])
-    out = []
-    if depth < 5:
-      for o in lost:
-        others = [x for x in lost if x != o]
-        k1 = without(others)
-        if O.admissible(cls, k1):
-          out += _analyse(ctx, cls, k1, call_first, probes, seed, route,
-                          depth + 1)
-          continue
-        for p_ in others:
-          k2 = without([x for x in others if x != p_])
-          if O.admissible(cls, k2):
-            if len(k2) == len(kw):
-              out.append(joint)
-            else:
-              out += _analyse(ctx, cls, k2, call_first, probes, seed, route,
-                              depth + 1)
-            break
-        else:
-          out.append(joint)
-    return out or [joint]
-  # unexplained: reduce to the 1-minimal failing option set
-  def still2(k):
-    e = evaluate(cls, k, call_first, probes, seed)
-    return e.ctor and e.fid(route) == fid
-  m = O.ddmin(cls, kw, still2)
-  evm = evaluate(cls, m, call_first, probes, seed)
-  lost = _find_lost(cls, m, evm.robs(route), probes, seed, _hint(evm))
-  if lost is not None:
-    sig = dict(base, lost_options=lost)
-  else:
-    sig = dict(base, lost_options="unexplained", options=_ctx_str(m))
-  out = [mk(m, sig, evm.detail[route])]
-  rest = {k: v for k, v in kw.items() if k not in m}
-  if m and depth < 4 and O.admissible(cls, rest):
-    out += _analyse(ctx, cls, rest, call_first, probes, seed, route, depth + 1)
+def _analyse(ctx, cls, kw, call_first, probes, seed, route):
+  """-> list of (sub_check, signature, detail, minimal_case)."""
+  out = []
+  for sig, detail, m in O.analyse(
+      cls, kw, route,
+      lambda k: evaluate(cls, k, call_first, probes, seed),
+      lambda k: _observe_direct(cls, k, probes, seed),
+      lambda sg: ctx.is_known(route, dict(sg, cls=cls, route=route))):
+    out.append((route, dict(sg_order(cls, route, sig)), detail,
+                {"cls": cls, "kw": m, "call_first": call_first,
+                 "probes": probes, "seed": seed}))
   return out
+
+
+def sg_order(cls, route, sig):
+  d = {"cls": cls, "route": route}
+  d.update(sig)
+  return d
 
 
 def oracle(ctx, case, stats=None):
